@@ -597,10 +597,26 @@ def make_phantoms_unbounded(S, I, variant):
     else:
         c.assume(icmp(">=", max_cards, N))
     imax = lambda a, b: iite(icmp(">=", a, b), iterm(a), iterm(b))
-    I.invariants[("CVR.make_phantoms", "for", 1)] = AppendSummary(S, None, lambda I_, st, env, oldlen: iadd(oldlen, isub(max_cards, N)), "for")
-    I.invariants[("CVR.make_phantoms", "while", 0)] = AppendSummary(
-        S, None, lambda I_, st, env, oldlen: imax(oldlen, needed(_enclosing_contest(I_, st, env, cons).attrs["id"])), "while")
-    I.invariants[("CVR.make_phantoms", "for", 3)] = ListContestSummary(S, cons, needed)
+    import ast as _ast
+
+    def _is_range_for(st):
+        return isinstance(st, _ast.For) and isinstance(st.iter, _ast.Call) and getattr(st.iter.func, "id", None) == "range"
+
+    def _try(f, st):
+        try:
+            f(st)
+            return True
+        except NotApplicable:
+            return False
+
+    # the three loops are recognised by their shape (so that reordering the style / no-style branches does not matter)
+    I.loop_matchers["CVR.make_phantoms"] = [
+        (lambda st: _is_range_for(st) and _try(_appended_list, st),
+         AppendSummary(S, None, lambda I_, st, env, oldlen: iadd(oldlen, isub(max_cards, N)), "for")),
+        (lambda st: isinstance(st, _ast.While) and _try(_appended_list, st),
+         AppendSummary(S, None, lambda I_, st, env, oldlen: imax(oldlen, needed(_enclosing_contest(I_, st, env, cons).attrs["id"])), "while")),
+        (lambda st: _is_range_for(st) and _try(_indexed_list, st), ListContestSummary(S, cons, needed)),
+    ]
     fn = I.get(MOD, "CVR.make_phantoms")
     r, exc = guard(S, I, lambda: I.call(fn, [], {"audit": audit, "contests": cons, "cvr_list": cards, "prefix": "ph-"}))
     if exc:
